@@ -21,7 +21,7 @@ mod world;
 use harness::{Check, Tier};
 
 fn registry() -> Vec<&'static dyn Check> {
-    vec![&checks::c09::C09, &checks::c13::C13, &checks::c14::C14, &checks::c16::C16, &checks::c17::C17, &checks::c20::C20]
+    vec![&checks::c08::C08, &checks::c09::C09, &checks::c13::C13, &checks::c14::C14, &checks::c16::C16, &checks::c17::C17, &checks::c20::C20]
 }
 
 fn seed_from_env() -> u64 {
